@@ -5,7 +5,11 @@ edited by a random edit history (vfpy/gen_ops.py):
   * structural isomorphism (vfpy/iso_ir.py) of the model and from_proto(to_proto(model));
   * to_proto(model) twice gives byte-identical deterministic serialisations;
   * an all-observables snapshot of the model before and after to_proto: nothing may change except
-    an initializer tensor's own name becoming the name of its value.
+    an initializer tensor's own name becoming the name of its value; the tensors themselves (class, dtype,
+    shape, doc string, metadata_props, payload digest, name of attribute tensors) are described by
+    vfpy/c03_reload.tensor_observables before and after as well.
+Part of the models is loaded from its own serialisation and edited afterwards (vfpy/c03_reload.py): what is
+serialised must be the IR state the public accessors show, not what a backing proto still holds.
 """
 
 from __future__ import annotations
@@ -14,7 +18,7 @@ import re
 
 import onnx_ir as ir
 
-from vfpy import c03_scopes, gen_ir, iso_ir, snapshot
+from vfpy import c03_reload, c03_scopes, gen_ir, iso_ir, snapshot
 from vfpy.gen_ops import Gen
 from vfpy.world import World
 
@@ -27,7 +31,14 @@ RULE = ("a case is one generated structural IR model (nested subgraphs with capt
         "from val_0, or single values borrowing the name of a value of an enclosing/nested/sibling graph or function) "
         "as far as every reference still resolves lexically (innermost scope first), and in 45% the opset imports of "
         "the model/functions are redrawn over both spellings of the default domain, standard, custom and unused "
-        "domains and small/large versions; "
+        "domains and small/large versions; in 50% tensors of every class (initializer payloads, TENSOR/TENSORS "
+        "attributes) carry metadata_props / doc strings, and 40% of the representable models are first LOADED "
+        "(to_proto -> [bytes ->] from_proto, so tensors are proto-backed and every mapping, doc string and name was "
+        "initialised from a proto field) and then edited through the public API (vfpy/c03_reload.scrub: metadata "
+        "mappings of model/graphs/functions/nodes/values/tensors cleared, popped key by key, deleted, re-valued, "
+        "extended, replaced; doc strings emptied or changed; node/graph/tensor/value names changed; model header "
+        "fields reset; value types/shapes dropped or replaced; initializer payloads replaced; 20% of them also get "
+        "1-10 random public edits) before being judged; "
         "models that are not well scoped or whose references cannot be resolved by name are skipped and counted; non-trivial = >=4 nodes "
         "and >=3 generator features among {subgraph, function, captured value, non-tensor type, metadata, lazy/proto/"
         "string/low-bit tensor, unsorted order, edit history}; distinct = hash of the serialized proto")
@@ -55,7 +66,10 @@ def plan(tier: str) -> dict:
                    "edited_models_judged": 400 if quick else 20000,
                    "judged_with_cross_scope_names": 600 if quick else 30000,
                    "judged_with_shadowed_capture": 40 if quick else 2000,
-                   "judged_with_both_default_domain_spellings": 300 if quick else 15000},
+                   "judged_with_both_default_domain_spellings": 300 if quick else 15000,
+                   "loaded_then_edited_models_judged": 800 if quick else 40000,
+                   "judged_with_metadata_emptied_vs_backing": 60 if quick else 3000,
+                   "tensors_compared_across_to_proto": 5000 if quick else 250000},
         "min_nontrivial": 1000,
     }
 
@@ -153,15 +167,44 @@ def build(ctx, case):
     if (model.ir_version or 0) >= 11 and not edited and rng.random() < 0.7:
         if gen_ir.annotate_devices(model, rng):
             feats.add("device_annotations")
+    # loaded-then-edited models (own stream): tensors of every class carry metadata; the model is taken
+    # through to_proto/from_proto (so its tensors are proto-backed and every mapping / doc string / name
+    # was initialised from a proto field) and is then edited through the public API
+    info: dict[str, int] = {}
+    rr = ctx.rng(case, "reload")
+    if rr.random() < 0.5 and c03_reload.decorate_tensors(model, rr):
+        feats.add("tensor_metadata")
+    if rr.random() < 0.4 and not unsupported(model):
+        loaded = c03_reload.reload(model, rr)
+        if loaded is None:
+            feats.add("reload_refused")
+        else:
+            model = loaded
+            feats.add("reloaded")
+            if rr.random() < 0.9:
+                for k, n in c03_reload.scrub(model, rr).items():
+                    info["post_load_edit:" + k] = n
+                if info:
+                    feats.add("edited_after_load")
+            if rr.random() < 0.2:
+                w = World()
+                w.adopt_model(model)
+                g = Gen(rr, w, hostile=0.08, weights=EDIT_WEIGHTS, avoid={"owned_node_outputs"})
+                for _ in range(rr.randint(1, 10)):
+                    w.apply(g.op())
+                gen_ir.uniquify_names(model)
+                edited = True
+                feats.add("edit_history")
+                feats.add("edit_history_after_load")
     if xr.random() < 0.5:
         if c03_scopes.collide_names(model, xr):
             feats.add("cross_scope_names")
     if xr.random() < 0.45:
         feats |= c03_scopes.vary_opset_imports(model, xr)
-    return model, feats, edited
+    return model, feats, edited, info
 
 
-def judge(ctx, model, feats, edited, case):
+def judge(ctx, model, feats, edited, case, info=None):
     problems = unsupported(model)
     if problems:
         ctx.count("skipped_outside_domain")
@@ -172,6 +215,7 @@ def judge(ctx, model, feats, edited, case):
     w = World()
     w.adopt_model(model)
     pre = snapshot.snapshot(w)
+    pre_t = c03_reload.tensor_observables(model)
     try:
         p1 = ir.to_proto(model)
     except Exception as e:  # noqa: BLE001 - the statement is about models that serialise
@@ -196,6 +240,19 @@ def judge(ctx, model, feats, edited, case):
         ctx.violation(f"serialize-side-effect|{label[0]}.{field}",
                       f"to_proto changed the model: {label}.{field}: {a!r} -> {b!r}", {"case": case, "seed": ctx.seed})
         return
+    post_t = c03_reload.tensor_observables(model)
+    ctx.count("tensors_compared_across_to_proto", len(pre_t))
+    if len(pre_t) != len(post_t):
+        ctx.violation("serialize-side-effect|tensor set", f"to_proto changed the tensors reachable from the model: "
+                      f"{len(pre_t)} -> {len(post_t)}", {"case": case, "seed": ctx.seed})
+        return
+    for (role, a), (_, b) in zip(pre_t, post_t):
+        if a != b:
+            field = next(k for k in a if a.get(k) != b.get(k))
+            ctx.violation(f"serialize-side-effect|{role} tensor {a['class']}.{field}",
+                          f"to_proto changed a tensor of the model ({role}): {a!r} -> {b!r}"[:1500],
+                          {"case": case, "seed": ctx.seed})
+            return
     p2 = ir.to_proto(model)
     if p1.SerializeToString(deterministic=True) != p2.SerializeToString(deterministic=True):
         ctx.violation("serialize-twice-differs", "two consecutive to_proto(model) calls gave different protos",
@@ -223,12 +280,23 @@ def judge(ctx, model, feats, edited, case):
         ctx.count("judged_with_both_default_domain_spellings")
     if edited:
         ctx.count("edited_models_judged")
+    if "reloaded" in feats:
+        ctx.count("loaded_models_judged")
+        if "edited_after_load" in feats:
+            ctx.count("loaded_then_edited_models_judged")
+        for k, n in (info or {}).items():
+            ctx.count(k, n)
+        for k, n in c03_reload.stale_backing(model).items():
+            ctx.count(k, n)
+            if n and k != "proto_backed_tensors":
+                ctx.count("judged_with_" + k)
     nnodes = sum(1 for _ in model.graph.all_nodes())
     for f in feats:
         ctx.count("feature:" + f)
     big = {"subgraph", "function", "sequence_type", "optional_type", "sparse_type", "metadata_props", "lazy_tensor",
            "proto_tensor", "string_tensor", "lowbit_tensor", "unsorted_nodes", "edit_history", "ref_attr",
-           "outer_value_as_subgraph_output", "empty_named_output", "dim_denotation", "type_proto_attr", "device_annotations"}
+           "outer_value_as_subgraph_output", "empty_named_output", "dim_denotation", "type_proto_attr", "device_annotations",
+           "edited_after_load", "tensor_metadata"}
     ctx.evaluation(key=p1.SerializeToString(deterministic=True).hex()[:4000], nontrivial=(nnodes >= 4 and len(feats & big) >= 3))
     if case % 61 == 0:
         ctx.sample({"case": case, "nodes": nnodes, "features": sorted(feats), "edited": edited,
@@ -244,8 +312,8 @@ def _tensor_shared_with_initializer(w, v) -> bool:
 
 
 def run_case(ctx, case):
-    model, feats, edited = build(ctx, case)
-    judge(ctx, model, feats, edited, case)
+    model, feats, edited, info = build(ctx, case)
+    judge(ctx, model, feats, edited, case, info)
 
 
 def run(ctx) -> None:
